@@ -49,7 +49,12 @@ CONSTS = {"EQUALS_ZERO": ("==", 0.0), "LEQ_ZERO": ("<=", 0.0), "GEQ_ZERO": (">="
 # test callables (exact in floats); index = H11.fn index
 FUNS = [lambda x: x, lambda x: -x, lambda x: 0, lambda x: x - 1]
 # threshold tokens as a user would write them
-TOKENS = ["-5", "-0.0", "0", "0.5", "1e-3", "1e300", "-1e300", "5", ".25", "+7.", "-2.5E-3", "123456789.125", "1e-300", "0.1", "3"]
+TOKENS = ["-5", "-0.0", "0", "0.5", "1e-3", "1e300", "-1e300", "5", ".25", "+7.", "-2.5E-3", "123456789.125", "1e-300", "0.1", "3",
+          "0.30000000000000004", "1234567.0", "-1234.5678901", "6.02214076e23", "5e-324", "9007199254740993", "0.3333333333333333"]
+# numbers for the two-argument form (repr; ints stay ints): 7+ significant digits, extremes, ints above 2**53
+PAIR_VALUES = [repr(v) for v in (1 / 3, 0.1 + 0.2, 1234567.0, -1234.5678901, 6.02214076e23, 5e-324, 1e300, -1e300, 2 ** 53 + 1, -(2 ** 53 + 1), 1234567, 10, 10.0, 0, -0.0,
+                                 0.5, 0.0123456789, 1e-3, 1e16, 1e21, 1e22, 10 ** 22, 123456789012345678, 1.7976931348623157e308, 2.2250738585072014e-308,
+                                 123456.7, 9.999999e-05, 100000.5, -5, 2.5e-7)]
 DELTA = Fraction(0.0001)
 
 
@@ -437,6 +442,52 @@ def run_problem_sequence(ctx, n, steps, lits=None):
             return
 
 
+def oracle_reparse(ctx, op, value_repr, xs, lits=None, meta=None):
+    """Constraint(op, value): the stored text c.op re-declared as a string, and the copy Constraint(c), must be the same constraint:
+    same violation as c on every x, and zero exactly when  x op value  holds."""
+    from platypus import Constraint
+    value = tok_number(value_repr)
+    ctor = ("pair", op, value_repr)
+    rp = {"kind": "reparse", "op": op, "value": value_repr}
+    c, err = declare(ctor)
+    if c is None:
+        ctx.violation("two-argument-form-rejected", "Constraint(%r, %s) raised %s" % (op, value_repr, err), rp)
+        return
+    y = float(value)
+    intent = (op, y)
+    text = getattr(c, "op", None)
+    c2, err2 = declare(("ctor-str", text)) if isinstance(text, str) else (None, "op text is %r" % (text,))
+    try:
+        c3, err3 = Constraint(c), None
+    except Exception as e:  # noqa: BLE001
+        c3, err3 = None, type(e).__name__
+    if c2 is None:
+        ctx.violation("stored-text-does-not-reparse", "Constraint(%r, %s).op = %r, and Constraint(%r) raised %s" % (op, value_repr, text, text, err2), rp)
+    if c3 is None:
+        ctx.violation("copy-of-constraint-raises", "Constraint(Constraint(%r, %s)) raised %s" % (op, value_repr, err3), rp)
+    if lits is not None and c2 is not None and shippable(("ctor-str", text)):
+        i = op_index_of(c)
+        yc = c.function.keywords.get("y") if hasattr(c.function, "keywords") else None
+        if i is not None and isinstance(yc, float) and yc == yc and abs(yc) != INF:
+            # the model parses the stored text (c11_pair_op_string_reparses); it must denote the object built by the two-argument form
+            lits.append("KDecl %s (Some (%d, %s))" % (sp_lit(("ctor-str", text)), i, C.q_lit(yc)))
+            if meta is not None:
+                meta.append(("reparse", op, value_repr, text))
+    for x in xs:
+        rpx = dict(rp, x=repr(x))
+        v = c(x)
+        ctx.count()
+        oracle_call(ctx, ctor, intent, x, v, rp=rpx)
+        for name, cc in (("re-declared from its stored text %r" % (text,), c2), ("copied with Constraint(c)", c3)):
+            if cc is None:
+                continue
+            w = cc(x)
+            oracle_call(ctx, ("pair", op, value_repr, name), intent, x, w, rp=rpx)
+            if w != v and not (w != w and v != v):
+                ctx.violation("stored-text-reparses-to-different-constraint" if cc is c2 else "copy-differs-from-original",
+                              "c = Constraint(%r, %s) gives c(%r) = %r, but the same constraint %s gives %r" % (op, value_repr, x, v, name, w), rpx)
+
+
 # ----------------------------------------------------------------------------
 # generators
 # ----------------------------------------------------------------------------
@@ -684,6 +735,19 @@ def run(ctx):
     dist["feasible_vs_infeasible_pairs(Pareto+Epsilon dominance)"] = beats_done
     ctx.sample({"evaluate": {"constraints": [list(c) for c in meta[-1][1]], "values": [repr(x) for x in meta[-1][3]]}, "coq_case": lits[-1][:600]})
 
+    # ---- 3b. two-argument form: the stored text c.op and the copy Constraint(c) denote the same constraint
+    nre = 0
+    for op in OPS:
+        for vr in PAIR_VALUES:
+            y = float(tok_number(vr))
+            xs = values_for(y, rng)
+            oracle_reparse(ctx, op, vr, xs if ctx.thorough else xs[:7] + xs[-3:], lits, meta)
+            nre += 1
+            ctx.mark(("reparse", op, vr))
+    dist["two_argument_declarations_reparsed_from_stored_text"] = nre
+    ctx.sample({"reparse": "c = Constraint('<=', 1234567.0); Constraint(c.op) and Constraint(c) compared with c on the threshold, its float neighbours, +-inf, far values",
+                "coq_case": next((l for l in reversed(lits) if l.startswith("KDecl")), "")[:300]})
+
     # ---- 4. operation sequences: live objects called in interleaved order, one Problem re-declared in place
     nbefore = len(lits)
     seq_calls = 0
@@ -748,9 +812,10 @@ def run(ctx):
     ctx.rule = ("declarations: 6 operators x %d threshold tokens (negative, -0.0, 0, fractions, scientific notation, 1e300, 1e-300) x 6-7 spellings (together, one space, blanks+tab, "
                 "two-argument, copy, final newline, predefined constant), every character < U+0100 as separator, %d fixed malformed strings, random strings over '<>=! \\t\\n05.e-+x1', "
                 "bad two-argument operators; calls: each (operator, threshold) on the threshold, 2 floats above/below, +-inf, far and dyadic values; evaluations: random 1-4 "
-                "constraints (incl. callables) through Problem.__call__; operation sequences on live Constraint objects/copies and on one Problem object re-declared in place.  non-trivial & distinct = accepted declarations other than the plain 'op+number' string, calls whose value is "
+                "constraints (incl. callables) through Problem.__call__; every two-argument declaration (6 operators x %d numbers incl. 7+ significant digits, 5e-324, 1e300, "
+                "ints above 2^53) re-declared from its stored text c.op and copied with Constraint(c), compared with c on threshold/neighbours/far values; operation sequences on live Constraint objects/copies and on one Problem object re-declared in place.  non-trivial & distinct = accepted declarations other than the plain 'op+number' string, calls whose value is "
                 "within 2 ulp of the threshold or infinite, evaluations with >= 2 constraints of which at least one is satisfied; each counted once by its full input"
-                % (len(TOKENS), len(MALFORMED)))
+                % (len(TOKENS), len(MALFORMED), len(PAIR_VALUES)))
 
     bad = C.run_coq_cases(ctx, "cases", imports, "c11case", "c11_check", lits, shard=ctx.scale(350, 800))
     if bad is not None:
@@ -817,6 +882,10 @@ def replay(ctx, data):
         ctors = [tuple(c) for c in rp["ctors"]]
         oracle_beats(ctx, ctors, [float(v) for v in rp["xs_feasible"]], [float(v) for v in rp["xs_infeasible"]],
                      [float(v) for v in rp["objs"][0]], [float(v) for v in rp["objs"][1]])
+    elif kind == "reparse":
+        y = float(tok_number(rp["value"]))
+        xs = [float(rp["x"])] if "x" in rp else values_for(y, ctx.rng)
+        oracle_reparse(ctx, rp["op"], rp["value"], xs)
     elif kind == "oseq":
         run_object_sequence(ctx, rp["steps"], None)
     elif kind == "pseq":
